@@ -7,7 +7,7 @@ SHARD = 6
 TAGS = {1, 2, 3, 4, 5, 6, 8, 10, 12, 13, 15}
 RULE = ("lifecycle scenarios: close() by client/server/both/nobody at a random instant of handshake or transfer (incl. "
         "window-limited senders), peer silent from a random datagram on (one or both directions), close packets lost/duplicated, idle "
-        "timeout and keep-alive settings, idle timeout renegotiated on 0-RTT resumption (remembered vs actual peer value: none, larger, smaller), late timers; non-trivial = at least one connection reached Drained")
+        "timeout and keep-alive settings, server process restart (genuine stateless resets, also to a client that is already closing), idle timeout renegotiated on 0-RTT resumption (remembered vs actual peer value: none, larger, smaller), late timers; non-trivial = at least one connection reached Drained")
 
 
 def gen(rng, n):
@@ -60,6 +60,24 @@ def gen(rng, n):
             if rng.chance(1, 2):
                 d["STREAM_RWND"] = rng.choice([3000, 10000])
             d["MAX_TIME"] = 15_000_000
+        elif m == 5 and rng.chance(2, 3):
+            # the server process restarts mid-connection (fresh endpoint, same reset key): whatever the
+            # client still sends - also the CONNECTION_CLOSE it repeats, while closing, in answer to
+            # replayed old server datagrams - is answered with a genuine stateless reset
+            d["NCONNS"] = 1
+            d["DELAY_MIN"] = d["DELAY_MAX"] = rng.choice([10000, 30000])
+            t = 2 * d["DELAY_MIN"] * rng.range(4, 10)
+            d["STREAM_BYTES"] = rng.choice([100000, 300000])
+            d["NBIDI"] = 1
+            d["ECHO_BYTES"] = rng.choice([0, 100000])
+            d["CLOSER"] = rng.choice([0, 0, 3])
+            if d["CLOSER"] == 0:
+                d["CLOSE_AT"] = t
+            d["FORGET_AT"] = max(1000, t + rng.choice([-20000, 1000, 20000, 100000]))
+            d["REPLAY"] = rng.choice([0, 300, 600])
+            d["IDLE_MS"] = rng.choice([1000, 3000])
+            d["MAX_TIME"] = 15_000_000
+            d.pop("RETRY", None)
         if d.get("STREAM_RWND") == 1:
             d["STREAM_BYTES"] = min(d["STREAM_BYTES"], 700)     # one byte per round trip
         if rng.chance(1, 2) and m != 1:
